@@ -35,6 +35,9 @@ def main():
     if not prop.startswith("C"):  # round 3: <area> X1|X2|X3, judged by all 19 checks
         src = f"/tmp/adv-out/{prop}"
         dst = f"/verif/seeded/adv-{prop}-{which}"
+        if which.startswith("M"):  # round 9: cross-property, late
+            src = f"/tmp/r9-out/{prop}"
+            dst = f"/verif/seeded/r9-{prop}-{which}"
         if which.startswith("Y"):  # round 4: feature work with a natural slip
             src = f"/tmp/r4-out/{prop}"
             dst = f"/verif/seeded/r4-{prop}-{which}"
